@@ -34,3 +34,7 @@ chk("C07", "E5-grid", "exploration",
     "Exhaustive grid of permission tables (literal, alternation, class, own-anchor, escaped-dollar, mixed-case patterns x ordered operation lists incl. None/~op) x requests at checker.Check against a reference evaluator written from the property text (one-directional: allowed by Dirk implies allowed by the text), plus a service-level grid in which every operation of signer, lister, account manager, wallet manager and generate is driven under reduced tables and must be carried out only if the evaluator allows it on the resolved name, refused requests leaving decoded records and lock state unchanged.",
     "Trusted: names/patterns outside the alphabets behave like their representatives; YAML entry order (main.go ranges over a map) is out of scope.",
     "exhaustive configuration x request grid against an independent reference evaluator", "5/C07")
+chk("C05", "E5-grid", "exploration",
+    "Full grid of domains (every first byte x following-byte and suffix classes) x every generic/attestation/proposal endpoint position (single, multisign positions, batch positions) x administrator lists x source addresses on the real signer stack, against the truth table of the property text; every produced signature is also bound to the submitted data and domain.",
+    "Trusted: domain bytes beyond the enumerated classes do not matter; symbolic account keys stand in for BLS.",
+    "exhaustive input x configuration grid with truth-table oracle", "5/C05")
